@@ -151,6 +151,24 @@ class Ctx:
         e = dict(os.environ)
         e.update(env or {})
         t = time.time()
+        # development aid for mutation / seed campaigns (never set by the registered commands): TLC runs that do not read
+        # anything from the implementation (no trace file in the environment) are a function of the specs and the config
+        cache = os.environ.get("HIO_VERIF_TLC_CACHE") if not env else None
+        ckey = None
+        if cache:
+            import hashlib
+            hsh = hashlib.sha256()
+            for f in sorted(os.listdir(d)):
+                if f.endswith((".tla", ".cfg")):
+                    hsh.update(f.encode() + b"\0" + open(os.path.join(d, f), "rb").read())
+            hsh.update(repr([c for c in cmd if d not in c]).encode())
+            ckey = os.path.join(cache, hsh.hexdigest())
+            if os.path.exists(ckey):
+                saved = json.load(open(ckey))
+                r = TlcResult(saved["out"], saved["rc"], 0.0)
+                self._account(r, module)
+                shutil.rmtree(d, True)
+                return r
         try:
             p = subprocess.run(cmd, cwd=d, env=e, stdout=subprocess.PIPE, stderr=subprocess.STDOUT,
                                timeout=timeout, text=True, errors="replace")
@@ -172,6 +190,11 @@ class Ctx:
                                  (module, p.returncode, r.other_errors[:3], path))
         self._account(r, module)
         shutil.rmtree(os.path.join(d, "meta"), True)
+        if ckey:
+            os.makedirs(cache, exist_ok=True)
+            with open(ckey + ".tmp%d" % os.getpid(), "w") as fh:
+                json.dump({"out": p.stdout, "rc": p.returncode}, fh)
+            os.replace(ckey + ".tmp%d" % os.getpid(), ckey)
         return r
 
     def _account(self, r, module):
